@@ -14,6 +14,7 @@
 package conn
 
 import (
+	"encoding/binary"
 	"errors"
 	"fmt"
 	"net"
@@ -29,6 +30,25 @@ import (
 	"github.com/willf/bitset"
 	"go.uber.org/zap"
 )
+
+// unmarshalBitfield decodes a bitfield sent by a remote peer. The binary form is
+// a 64-bit big-endian bit count followed by the words. bitset.UnmarshalBinary
+// allocates from the bit count before it reads any word, so the count is first
+// checked against the amount of data which actually arrived.
+func unmarshalBitfield(data []byte) (*bitset.BitSet, error) {
+	const header = 8
+	if len(data) < header {
+		return nil, errors.New("bitfield too short")
+	}
+	if n := binary.BigEndian.Uint64(data); n > 8*uint64(len(data)-header) {
+		return nil, fmt.Errorf("bitfield length %d exceeds %d bytes of data", n, len(data)-header)
+	}
+	b := bitset.New(0)
+	if err := b.UnmarshalBinary(data); err != nil {
+		return nil, err
+	}
+	return b, nil
+}
 
 // RemoteBitfields represents the bitfields of an agent's peers for a given torrent.
 type RemoteBitfields map[core.PeerID]*bitset.BitSet
@@ -51,8 +71,8 @@ func (rb RemoteBitfields) unmarshalBinary(rbBytes map[string][]byte) error {
 		if err != nil {
 			return fmt.Errorf("peer id: %s", err)
 		}
-		bitfield := bitset.New(0)
-		if err := bitfield.UnmarshalBinary(bitfieldBytes); err != nil {
+		bitfield, err := unmarshalBitfield(bitfieldBytes)
+		if err != nil {
 			return err
 		}
 		rb[peerID] = bitfield
@@ -114,9 +134,9 @@ func handshakeFromP2PMessage(m *p2p.Message) (*handshake, error) {
 	if err != nil {
 		return nil, fmt.Errorf("name: %s", err)
 	}
-	bitfield := bitset.New(0)
-	if err := bitfield.UnmarshalBinary(bitfieldMsg.BitfieldBytes); err != nil {
-		return nil, err
+	bitfield, err := unmarshalBitfield(bitfieldMsg.BitfieldBytes)
+	if err != nil {
+		return nil, fmt.Errorf("bitfield: %s", err)
 	}
 	remoteBitfields := make(RemoteBitfields)
 	if err := remoteBitfields.unmarshalBinary(bitfieldMsg.RemoteBitfieldBytes); err != nil {
